@@ -524,6 +524,18 @@ Section Generic.
       end
     end.
 
+  (* the state a history leads to (None: the process died on the way) *)
+  Fixpoint st_exec (s : storage) (l : list sop) : option storage :=
+    match l with
+    | [] => Some s
+    | o :: t =>
+      let '(s', v) := st_step s o in
+      match v with
+      | ObPanic | ObFault => None
+      | _ => st_exec s' t
+      end
+    end.
+
   (* every live index with its bytes (increasing index) — the dump compared with the implementation *)
   Fixpoint live_from (n : nat) (i : N) (s : storage) : list (N * bytes) :=
     match n with
